@@ -425,6 +425,13 @@ func findSites(obj *types.Func, p *load.Program) ([]site, string) {
 						bad = "call inside a nested statement that is not in a list"
 						return true
 					}
+				case *ast.RangeStmt:
+					if st.X == ast.Expr(call) {
+						s.shape = 6
+					} else {
+						bad = "call inside a range statement"
+						return true
+					}
 				default:
 					bad = fmt.Sprintf("call inside a %T", st)
 					return true
@@ -521,8 +528,8 @@ func soleCall(stmt ast.Stmt, target *ast.CallExpr, pk *packages.Package) string 
 						pure = true
 					}
 				}
-				if !pure {
-					why = "other calls in the same statement (evaluation order)"
+				if !pure && x.End() <= target.Pos() {
+					why = "another call is evaluated before it in the same statement"
 				}
 			}
 			for _, a := range x.Args {
@@ -663,7 +670,11 @@ func buildReplacement(fset *token.FileSet, src func(string) []byte, fd *ast.Func
 		fmt.Fprintf(&b, "var %s %s\n_ = %s\n", rn, tt, rn)
 	}
 	// argument temps in the caller's scope
-	type bind struct{ name, typ, val string }
+	type bind struct {
+		name, typ, val string
+		t              types.Type
+		same           bool // the argument expression already has exactly this type
+	}
 	var binds []bind
 	if fd.Recv != nil {
 		sel, ok := s.call.Fun.(*ast.SelectorExpr)
@@ -693,7 +704,14 @@ func buildReplacement(fset *token.FileSet, src func(string) []byte, fd *ast.Func
 		if len(fd.Recv.List) == 1 && len(fd.Recv.List[0].Names) == 1 {
 			name = fd.Recv.List[0].Names[0].Name
 		}
-		binds = append(binds, bind{name, tt, x})
+		adj := xt
+		switch {
+		case rPtr && !xPtr:
+			adj = types.NewPointer(xt)
+		case !rPtr && xPtr:
+			adj = xt.Underlying().(*types.Pointer).Elem()
+		}
+		binds = append(binds, bind{name, tt, x, rt, types.Identical(adj, rt)})
 	}
 	// parameters
 	var pnames []string
@@ -735,16 +753,35 @@ func buildReplacement(fset *token.FileSet, src func(string) []byte, fd *ast.Func
 			}
 			val = nodeText(fset, src, args[i])
 		}
-		binds = append(binds, bind{name, tt, val})
+		same := false
+		if !(sig.Variadic() && i == len(pnames)-1) && i < len(args) {
+			if at := pk.TypesInfo.TypeOf(args[i]); at != nil && types.Identical(at, ptypes[i]) {
+				same = true
+			}
+		}
+		binds = append(binds, bind{name, tt, val, ptypes[i], same})
 	}
 	if !sig.Variadic() && len(args) != len(pnames) {
 		return "", "argument count mismatch (multi-value argument)"
 	}
 	var anames []string
+	scope := pk.Types.Scope().Innermost(s.call.Pos())
 	for i, bd := range binds {
 		an := fmt.Sprintf("inlA%s_%d", tag, i)
 		anames = append(anames, an)
+		if bd.same {
+			fmt.Fprintf(&b, "%s := %s\n_ = %s\n", an, bd.val, an)
+			continue
+		}
+		if w := typeNameRisk(bd.t, pk, scope, s.call.Pos()); w != "" {
+			return "", w
+		}
 		fmt.Fprintf(&b, "var %s %s = %s\n_ = %s\n", an, bd.typ, bd.val, an)
+	}
+	for i := 0; i < sig.Results().Len(); i++ {
+		if w := typeNameRisk(sig.Results().At(i).Type(), pk, scope, s.call.Pos()); w != "" {
+			return "", w
+		}
 	}
 	// body with returns rewritten
 	body, hasReturn, why := rewriteReturns(fset, src, fd, rnames, "inlL"+tag)
@@ -756,7 +793,7 @@ func buildReplacement(fset *token.FileSet, src func(string) []byte, fd *ast.Func
 		if bd.name == "_" {
 			continue
 		}
-		fmt.Fprintf(&b, "var %s %s = %s\n_ = %s\n", bd.name, bd.typ, anames[i], bd.name)
+		fmt.Fprintf(&b, "%s := %s\n_ = %s\n", bd.name, anames[i], bd.name)
 	}
 	if hasReturn {
 		fmt.Fprintf(&b, "inlL%s:\n", tag)
@@ -804,6 +841,18 @@ func buildReplacement(fset *token.FileSet, src func(string) []byte, fd *ast.Func
 		w.WriteString(initText)
 		w.WriteString("if " + rest[condStart:] + "\n}\n")
 		return w.String(), ""
+	case 6:
+		if len(rnames) != 1 {
+			return "", "multi-value call as range operand"
+		}
+		full := nodeText(fset, src, s.stmt)
+		cs := fset.Position(s.call.Pos()).Offset - fset.Position(s.stmt.Pos()).Offset
+		ce := fset.Position(s.call.End()).Offset - fset.Position(s.stmt.Pos()).Offset
+		if cs < 0 || ce > len(full) || cs > ce {
+			return "", "cannot locate the call in its statement"
+		}
+		inner := b.String()
+		return "{\n" + inner + full[:cs] + rnames[0] + full[ce:] + "\n}\n", ""
 	case 5:
 		if len(rnames) != 1 {
 			return "", "multi-value call inside an expression"
@@ -817,6 +866,47 @@ func buildReplacement(fset *token.FileSet, src func(string) []byte, fd *ast.Func
 		b.WriteString(full[:cs] + rnames[0] + full[ce:] + "\n")
 	}
 	return b.String(), ""
+}
+
+// typeNameRisk: every named type of the package mentioned by t must mean the same thing at the call site.
+func typeNameRisk(t types.Type, pk *packages.Package, scope *types.Scope, pos token.Pos) string {
+	why := ""
+	seen := map[types.Type]bool{}
+	var walk func(t types.Type)
+	walk = func(t types.Type) {
+		if t == nil || seen[t] {
+			return
+		}
+		seen[t] = true
+		switch x := t.(type) {
+		case *types.Named:
+			if x.Obj().Pkg() == pk.Types && scope != nil {
+				if _, o := scope.LookupParent(x.Obj().Name(), pos); o != types.Object(x.Obj()) {
+					why = "type name " + x.Obj().Name() + " is shadowed at the call site"
+				}
+			}
+		case *types.Pointer:
+			walk(x.Elem())
+		case *types.Slice:
+			walk(x.Elem())
+		case *types.Array:
+			walk(x.Elem())
+		case *types.Map:
+			walk(x.Key())
+			walk(x.Elem())
+		case *types.Chan:
+			walk(x.Elem())
+		case *types.Signature:
+			for i := 0; i < x.Params().Len(); i++ {
+				walk(x.Params().At(i).Type())
+			}
+			for i := 0; i < x.Results().Len(); i++ {
+				walk(x.Results().At(i).Type())
+			}
+		}
+	}
+	walk(t)
+	return why
 }
 
 // rewriteReturns renders the callee's body statements with every return of the callee itself
